@@ -291,6 +291,6 @@ fn one_chain(rng: &mut Rng, reps: usize) {
 
 pub fn run(rng: &mut Rng, n: usize, thorough: bool) {
     for _ in 0..n {
-        one_chain(rng, if thorough { 16 } else { 8 });
+        case("select.chain", "c14.library_call_panics", || one_chain(rng, if thorough { 16 } else { 8 }));
     }
 }
